@@ -397,7 +397,7 @@ func (c14Driver) Gen(seed uint64, tier string) *simrt.Spec {
 		var cl C14Caller
 		no := 1 + r.Intn(6)
 		for k := 0; k < no; k++ {
-			op := C14Op{Kind: []string{"marshal", "unmarshal", "marshal_json", "unmarshal_json", "reuse_buf", "reuse_buf", "fill_buf", "unmarshal_buf", "unmarshal_buf", "build", "build"}[r.Intn(11)], Mask: r.Intn(nm), Buf: r.Intn(2)}
+			op := C14Op{Kind: []string{"marshal", "unmarshal", "marshal_json", "unmarshal_json", "reuse_buf", "reuse_buf", "fill_buf", "unmarshal_buf", "unmarshal_buf", "build", "build", "unmarshal_ws"}[r.Intn(12)], Mask: r.Intn(nm), Buf: r.Intn(2)}
 			cl.Ops = append(cl.Ops, op)
 		}
 		w.Callers = append(w.Callers, cl)
@@ -720,6 +720,32 @@ func (c14Driver) Run(spec *simrt.Spec, agg *Agg, keep bool) *Outcome {
 								fail("cache-unmarshal-error", "cache-unmarshal-error", "%s: %v", who, err)
 							} else if a := c14Ans(fm); a != want.ans {
 								fail("cache-wrong-mask", "cache-wrong-mask:reused-buffer", "%s decoded the document of mask %d from a buffer the caller had reused, and got a mask that answers differently from the mask of that document: %s", who, k, firstDiff(want.ans, a))
+							}
+						case "unmarshal_ws":
+							// the same document written with insignificant white space: the mask answers alike, and its
+							// text (through the cache as well) is the one stable text, not an echo of what was read
+							data := append(bytes.ReplaceAll(rf.json, []byte(","), []byte(", ")), '\n')
+							if bytes.Contains(rf.json, []byte(`\"`)) || bytes.Contains(rf.json, []byte(`,"`+"`")) {
+								continue
+							}
+							inString := false
+							for _, c := range rf.json {
+								if c == '"' {
+									inString = !inString
+								} else if c == ',' && inString {
+									data = nil // a comma inside a key: leave this document alone
+								}
+							}
+							if data == nil {
+								continue
+							}
+							fm, err := fieldmask.Unmarshal(data)
+							if err != nil {
+								fail("cache-unmarshal-error", "cache-unmarshal-error:white-space", "%s: %v", who, err)
+							} else if a := c14Ans(fm); a != rf.ans {
+								fail("cache-wrong-mask", "cache-wrong-mask:white-space", "%s returned a mask that answers differently from the mask of that document: %s", who, firstDiff(rf.ans, a))
+							} else if j, err := fieldmask.Marshal(fm); err != nil || !bytes.Equal(j, rf.json) {
+								fail("unstable-json", "unstable-json:after-unmarshal", "%s: Marshal of the mask read from a white-space variant of %s returns %s (err=%v)", who, clip(string(rf.json)), clip(string(j)), err)
 							}
 						case "build":
 							// callers build masks at the same time, each from the descriptor of its own universe
